@@ -112,7 +112,7 @@ def make_case(i, rng, tier):
             label = "wellformed:" + inp["label"]
         root, cc, enc = random_root(rng)
         recs.append(dict(kind="wrong-type", cls="arg", depth=0, regions=[]))
-    main = common.spec("main", root, data, cc, enc, strict=True, source="counting")
+    main = common.stray_cc(rng, common.spec("main", root, data, cc, enc, strict=True, source="counting"))
     tasks, sched = common.perturb(rng, [main], p_by=0.1, roots=True)
     return {"input": {"root": root, "cc": cc, "enc": enc, "label": label}, "faults": recs, "tasks": tasks, "schedule": sched}
 
